@@ -385,8 +385,10 @@ def dcInit : DcState := ⟨0, fun _ => false⟩
 
 def dcSlots (B : Nat) : Nat := 2 * B - 1
 
-/-- `essentials.MinInt(essentials.MaxInt(bufSize/(len(Xs)*len(Ys)), 4), len(Zs))`. -/
-def dcBufRows (bufSize nx ny nz : Nat) : Nat := min (max (bufSize / (nx * ny)) 4) nz
+/-- `BufRows`: `bufSize == 0` means `DefaultDualContouringBufferSize`; then
+`essentials.MinInt(essentials.MaxInt(bufSize/(len(Xs)*len(Ys)), 4), len(Zs))`. -/
+def dcBufRows (bufSize nx ny nz : Nat) : Nat :=
+  min (max ((if bufSize = 0 then 1000000 else bufSize) / (nx * ny)) 4) nz
 
 /-- `Remaining()`. -/
 def dcRemaining (nz B : Nat) (s : DcState) : Nat := nz - (B + s.zOff)
